@@ -2,6 +2,7 @@ package kit
 
 import (
 	"fmt"
+	sdk "github.com/cosmos/cosmos-sdk/types"
 	"math/big"
 	"math/bits"
 	"strings"
@@ -86,7 +87,7 @@ func PlainUser(t *rapid.T, label string) string {
 }
 
 // RecipientClass names the classes of bank recipients the generators draw from.
-var RecipientClasses = []string{"plain", "plain-upper", "orbiter", "orbiter-upper", "dust", "blacklisted", "module-warp", "fresh"}
+var RecipientClasses = []string{"plain", "plain-upper", "orbiter", "orbiter-upper", "dust", "blacklisted", "module-warp", "fresh", "long32", "short2"}
 
 func Recipient(t *rapid.T, label string, classes []string) (addr string, class string) {
 	class = pick(t, label+"/class", classes)
@@ -107,6 +108,13 @@ func Recipient(t *rapid.T, label string, classes []string) (addr string, class s
 		addr = world.WarpAddr.String()
 	case "fresh":
 		addr = world.Addr(fmt.Sprintf("fresh-%d", rapid.IntRange(0, 3).Draw(t, label+"/n"))).String()
+	case "long32":
+		// a 32-byte account address, as contracts, interchain accounts and derived module
+		// accounts have
+		addr = sdk.AccAddress(Fill32(byte(0xA0 + rapid.IntRange(0, 3).Draw(t, label+"/n")))).String()
+	case "short2":
+		// the shortest addresses the SDK accepts
+		addr = sdk.AccAddress([]byte{0x01, byte(rapid.IntRange(0, 3).Draw(t, label+"/n"))}).String()
 	default:
 		panic("unknown recipient class " + class)
 	}
@@ -375,7 +383,7 @@ type TransferOpt struct {
 	KeepBelowLimit bool // keep the forwarded amount within the CCTP burn limit for cctp routes
 }
 
-var AllDenoms = []string{world.Uusdc, world.Ufoo, world.Gamm, world.Tricky, world.IBCVoucher, world.Uhuge}
+var AllDenoms = []string{world.Uusdc, world.Ufoo, world.Gamm, world.Tricky, world.IBCVoucher, world.Uhuge, world.OddDenom, world.LongDenom}
 
 // GenTransfer draws an orbiter transfer that is well-formed by construction.
 func GenTransfer(t *rapid.T, w *world.World, opt TransferOpt) Transfer {
